@@ -61,7 +61,7 @@ Section NextCell.
   Lemma nc_start :
     c_start c = Z.max (c_arrival c) (to_earliest_start (stop_windows inp s) (c_arrival c)).
   Proof. reflexivity. Qed.
-  Lemma nc_end : c_end c = c_start c + stop_duration inp s. Proof. reflexivity. Qed.
+  Lemma nc_end : c_end c = c_start c + stop_duration_at inp (c_stop p) s. Proof. reflexivity. Qed.
   Lemma nc_cumtravel : c_cumtravel c = c_cumtravel p + c_travel c. Proof. reflexivity. Qed.
   Lemma nc_cumdist : c_cumdist c = c_cumdist p + distance_value inp v (c_stop p) s.
   Proof. reflexivity. Qed.
@@ -82,7 +82,7 @@ Section NextCell.
     c_travel c = travel_duration inp (c_stop p) s /\
     c_arrival c = c_end p + c_travel c /\
     c_start c = Z.max (c_arrival c) (to_earliest_start (stop_windows inp s) (c_arrival c)) /\
-    c_end c = c_start c + stop_duration inp s /\
+    c_end c = c_start c + stop_duration_at inp (c_stop p) s /\
     c_cumtravel c = c_cumtravel p + c_travel c /\
     c_cumdist c = c_cumdist p + distance_value inp v (c_stop p) s /\
     c_pos c = S (c_pos p) /\
@@ -196,7 +196,7 @@ Theorem C04_forward_walk_proof : forall inp s v,
     c_arrival c = c_end p + c_travel c /\
     c_start c = Z.max (c_arrival c)
                       (to_earliest_start (stop_windows inp (c_stop c)) (c_arrival c)) /\
-    c_end c = c_start c + stop_duration inp (c_stop c) /\
+    c_end c = c_start c + stop_duration_at inp (c_stop p) (c_stop c) /\
     c_cumtravel c = c_cumtravel p + c_travel c /\
     c_cumdist c = c_cumdist p + distance_value inp v (c_stop p) (c_stop c) /\
     c_pos c = S (c_pos p) /\
@@ -1536,7 +1536,7 @@ Qed.
    (after the epoch) and a max wait; units {0,1} and {2}; every constraint and
    every objective term installed *)
 Definition ex2_opts : options :=
-  mkOptions false false false false false false false false false false false 1 1 1 1.
+  mkOptions false false false false false false false false false false false 1 1 1 1 false.
 Definition ex2_mat : list (list Z) :=
   map (fun i => map (fun j => if Nat.eqb i j then 0 else 60) (seqn 7)) (seqn 7).
 Definition ex2_vehicle : ivehicle :=
@@ -1548,7 +1548,7 @@ Definition ex2_inp : input :=
            mkIStop [-1; -1] 10 [] None 100 []]
           [ex2_vehicle; ex2_vehicle]
           [mkIUnit [0; 1]%nat []; mkIUnit [2%nat] []]
-          ex2_mat ex2_mat 2 ex2_opts.
+          ex2_mat ex2_mat 2 ex2_opts [].
 Definition ex2_s0 : state :=
   Eval vm_compute in match new_solution ex2_inp with Some s => s | None => ex_dummy end.
 Definition ex2_mv1 : move := mkMove 0 0 [(0, 1); (1, 1)]%nat.
@@ -1559,7 +1559,7 @@ Definition ex2_h : list op := [OpPlan ex2_mv1; OpPlan ex2_mv2; OpUnplan 0].
 
 Example ex2_wf : wf_input ex2_inp.
 Proof.
-  split; [|split].
+  split; [|split; [|split; [|exact (Forall_nil _)]]].
   - vm_compute. repeat (constructor; [simpl; lia|]). constructor.
   - intros x. vm_compute. lia.
   - intros u Hu. vm_compute in Hu. destruct Hu as [<-|[<-|[]]]; discriminate.
@@ -1692,6 +1692,87 @@ Proof.
   assert (Hv : (0 < nveh ex2_inp)%nat) by (vm_compute; lia).
   destruct (C02_shift_end_proof ex2_inp ex2_s2 0 ex2_wf ex2_reachable_s2 Hv) as (_ & _ & H).
   exact (H eq_refl 15000 eq_refl).
+Qed.
+
+(* ================================================================== *)
+(* Duration groups: a concrete route                                   *)
+(* ================================================================== *)
+
+(* Stops 0, 1, 2, 3 with own durations 10, 20, 5, 30; stops 0, 1 and 3 form a
+   duration group of 300 s, stop 2 is in no group.  One vehicle (first stop 4,
+   last stop 5), start time 0, 60 s between any two different stops.  One unit
+   holds the four stops; one move plans them in the order 0 1 2 3.
+     stop 0 comes from the vehicle's first stop:   10 + 300
+     stop 1 comes from stop 0, of its group:       20         (the group is paid once)
+     stop 2 is in no group:                        5
+     stop 3 comes from stop 2, outside its group:  30 + 300   (paid again)
+     the last stop is in no group:                 0 *)
+Definition dgx_mat : list (list Z) :=
+  map (fun i => map (fun j => if Nat.eqb i j then 0 else 60) (seqn 6)) (seqn 6).
+Definition dgx_stops : list istop :=
+  [mkIStop [] 10 [] None 100 []; mkIStop [] 20 [] None 100 [];
+   mkIStop [] 5 [] None 100 []; mkIStop [] 30 [] None 100 []].
+Definition dgx_inp : input :=
+  mkInput [] dgx_stops [mkIVehicle None [] 0 None None None None None [] 0 true true]
+          [mkIUnit [0; 1; 2; 3]%nat []] dgx_mat dgx_mat 0 ex_opts [([0; 1; 3]%nat, 300)].
+Definition dgx_s0 : state :=
+  Eval vm_compute in match new_solution dgx_inp with Some s => s | None => ex_dummy end.
+Definition dgx_mv : move := mkMove 0 0 [(0, 1); (1, 1); (2, 1); (3, 1)]%nat.
+Definition dgx_s1 : state := Eval vm_compute in fst (exec_move dgx_inp dgx_s0 dgx_mv).
+(* the same input with the duration groups disabled *)
+Definition dgx_off_inp : input :=
+  mkInput [] dgx_stops [mkIVehicle None [] 0 None None None None None [] 0 true true]
+          [mkIUnit [0; 1; 2; 3]%nat []] dgx_mat dgx_mat 0
+          (mkOptions false false false false false false false false false false false 0 1 0 1 true)
+          [([0; 1; 3]%nat, 300)].
+
+Example dgx_wf : wf_input dgx_inp.
+Proof.
+  split; [|split; [|split]].
+  - vm_compute. repeat (constructor; [simpl; lia|]). constructor.
+  - intros x. vm_compute. lia.
+  - intros u Hu. vm_compute in Hu. destruct Hu as [<-|[]]; discriminate.
+  - vm_compute. repeat constructor.
+Qed.
+
+Example dgx_new : new_solution dgx_inp = Some dgx_s0.
+Proof. vm_compute. reflexivity. Qed.
+
+Example dgx_mv_ok : move_ok dgx_inp dgx_s0 dgx_mv.
+Proof.
+  unfold move_ok. vm_compute.
+  split; [lia|]. split; [lia|]. split; [apply Permutation_refl|]. split; [discriminate|].
+  split; repeat constructor.
+Qed.
+
+Example dgx_mv_done : exec_move dgx_inp dgx_s0 dgx_mv = (dgx_s1, Done).
+Proof. vm_compute. reflexivity. Qed.
+
+Example dgx_reachable : reachable dgx_inp dgx_s1.
+Proof.
+  exists dgx_s0, [OpPlan dgx_mv]. split; [exact dgx_new|]. split.
+  - cbn [fresh op_ok]. split; [exact dgx_mv_ok|exact I].
+  - cbn [run step]. rewrite dgx_mv_done. cbn [fst]. right. left. reflexivity.
+Qed.
+
+Example C04_duration_groups_example_proof :
+  wf_input dgx_inp /\ reachable dgx_inp dgx_s1 /\
+  in_dgroups dgx_inp = [([0; 1; 3]%nat, 300)] /\
+  route_stops (get_route dgx_s1 0) = [4; 0; 1; 2; 3; 5]%nat /\
+  (* time spent at each stop of the route *)
+  map (fun c => c_end c - c_start c) (get_route dgx_s1 0) = [0; 10 + 300; 20; 5; 30 + 300; 0] /\
+  stop_duration_at dgx_inp 4 0 = stop_duration dgx_inp 0 + 300 /\
+  stop_duration_at dgx_inp 0 1 = stop_duration dgx_inp 1 /\
+  stop_duration_at dgx_inp 1 2 = stop_duration dgx_inp 2 /\
+  stop_duration_at dgx_inp 2 3 = stop_duration dgx_inp 3 + 300 /\
+  map c_arrival (get_route dgx_s1 0) = [0; 60; 430; 510; 575; 965] /\
+  map c_end (get_route dgx_s1 0) = [0; 370; 450; 515; 905; 965] /\
+  (* duration groups disabled: own durations only *)
+  map (fun c => c_end c - c_start c) (from_scratch dgx_off_inp 0 [4; 0; 1; 2; 3; 5]%nat)
+  = [0; 10; 20; 5; 30; 0].
+Proof.
+  split; [exact dgx_wf|]. split; [exact dgx_reachable|].
+  repeat split; vm_compute; reflexivity.
 Qed.
 
 (* ================================================================== *)
